@@ -70,6 +70,9 @@ type Codec interface {
 	Decode(message []byte) (any, error)
 }
 
+// ErrCodecNotConfigured 未配置 Codec 且消息类型未注册读写器时返回（而不是对 nil Codec 调用方法导致 panic）
+var ErrCodecNotConfigured = fmt.Errorf("message type has no registered reader/writer and no codec is configured")
+
 func RegisterInternalMessage[T any](messageName string, reader InternalMessageReader, writer InternalMessageWriter) {
 	tof := reflect.TypeOf((*T)(nil)).Elem().Elem()
 	desc := &MessageDesc{
